@@ -536,6 +536,52 @@ func checkC03(ix *index, add addFn) {
 			prev, prevOp = ft, e.op
 		}
 	}
+	// a filter's first appearance on the wire, be it in the application's own
+	// SUBSCRIBE or in a re-subscription generated from the client's table (which
+	// already lists subscriptions that were never sent), comes after the first
+	// transmission of everything submitted before that Subscribe call
+	{
+		seenFilter := map[string]bool{}
+		for oi, e := range order {
+			o := sc.Ops[e.op]
+			if o.Kind != "subscribe" {
+				continue
+			}
+			for _, sr := range o.Subs {
+				if seenFilter[sr.Filter] {
+					continue
+				}
+				seenFilter[sr.Filter] = true
+				F := -1
+				for _, i := range ix.tx {
+					r := &ix.tr[i]
+					if r.P.Type != TSubscribe {
+						continue
+					}
+					for _, x := range r.P.Subs {
+						if x.Filter == sr.Filter {
+							F = i
+						}
+					}
+					if F >= 0 {
+						break
+					}
+				}
+				if F < 0 {
+					continue
+				}
+				for _, e2 := range order[:oi] {
+					o2 := sc.Ops[e2.op]
+					if (o2.Kind == "publish" && o2.QoS > 0) || o2.Kind == "unsubscribe" {
+						if ft, ok := firstTx[e2.op]; ok && ft > F {
+							add("first-tx-order", fmt.Sprintf("filter %q of op %d (subscribe) was on the wire before the first transmission of op %d (%s) although submitted later", sr.Filter, e.op, e2.op, o2.Kind), map[string]string{"via": "filter"})
+							return
+						}
+					}
+				}
+			}
+		}
+	}
 	// delivery-order (only closing faults in the run)
 	for _, f := range sc.Faults {
 		switch f.Kind {
